@@ -26,7 +26,7 @@ pub fn spec() -> Spec {
     Spec {
         prop: "C02",
         level: "exploration",
-        rule: "Twin processes (own HashMap seeds and directories; the child twin is stopped and reopened after commits) replay one recorded call list; every response and Obs at every block boundary compared after key-order canonicalisation and zeroing mineTimestamp, list order kept. Plus sha256 digests of a fixed, seed-independent corpus (all contract ops, every precompile, deposits/withdrawals, parked+drained signed transactions, multi-tx blocks) on regtest/signet/bitcoin against /verif/golden/<network>.json recorded under the same protocol/db version. Non-trivial = a compared list-valued result with >=2 elements (logs, block transaction lists, raw receipts, trace strings); distinct by (history digest, query).",
+        rule: "Twin processes (own HashMap seeds and directories; the child twin is stopped and reopened after commits) replay one recorded call list; every response and Obs at every block boundary compared after key-order canonicalisation and zeroing mineTimestamp, list order kept. Plus sha256 digests of a fixed, seed-independent corpus (all contract ops, every precompile, deposits/withdrawals, parked+drained signed transactions, multi-tx blocks) on regtest/signet/bitcoin against /verif/golden/<network>.json recorded under the same protocol/db version. Time-shifted twin: a short history with supplied timestamps 0 / u64::MAX and server-generated hashes is served by two instances 1.2 s apart (wall-clock time must not leak); the golden corpus ends with the same calls. Non-trivial = a compared list-valued result with >=2 elements (logs, block transaction lists, raw receipts, trace strings); distinct by (history digest, query).",
         assumptions: vec![
             "golden digests pin today's behaviour of the listed corpus under protocol version/db version recorded in the golden file; if versions differ the golden comparison is skipped and reported as inconclusive".into(),
             "eth_call-type observations are restricted to time-independent code".into(),
@@ -172,6 +172,64 @@ fn twin_case(ctx: &WorkerCtx, rep: &mut WorkerReport, case_seed: u64, blocks: u6
     }
 }
 
+/// Calls whose supplied timestamps are 0 (and u64::MAX): a value the engine might be tempted to
+/// replace by "now".
+fn zero_time_ops(pk: &str, next_height: u64, with_init: bool) -> Vec<Op> {
+    let mut v = vec![];
+    let mut h = next_height;
+    if with_init {
+        v.push(Op::Mine { n: 2, ts: 0 });
+        v.push(Op::Init { hash: hist::ZERO_HASH.into(), ts: 0, height: h + 2 });
+        h += 3;
+    }
+    v.push(Op::Mine { n: 1, ts: 0 });
+    let bh = hist::bh(0x2e70_0000 + h);
+    v.push(Op::Deposit { pk: pk.to_string(), ticker: "zts".into(), amount: "0x5".into(), ctx: Ctx { ts: 0, hash: bh.clone(), idx: 0 }, iid: format!("zero-ts-{}i0", h) });
+    v.push(Op::Finalise { ts: 0, hash: bh, count: 1 });
+    v.push(Op::Mine { n: 1, ts: u64::MAX });
+    v.push(Op::Finalise { ts: 0, hash: hist::ZERO_HASH.into(), count: 0 });
+    v.push(Op::Commit);
+    v
+}
+
+/// Twin shifted in time: the same calls (with zero timestamps and server-generated hashes) are
+/// served by two instances more than a second apart; wall-clock time must not leak into any answer.
+fn time_shifted_twin(ctx: &WorkerCtx, rep: &mut WorkerReport) {
+    let (net, _) = net_for_shard(ctx.shard);
+    let pk = "5120d7d7d7d7d7d7d7d7d7d7d7d7d7d7d7d7d7d7d7d7d7d7d7d7d7d7d7d7d7d7d7";
+    let ops = zero_time_ops(pk, 0, true);
+    let mut d0 = new_driver("C02");
+    for op in &ops {
+        d0.exec(op.clone());
+    }
+    let u = universe(&[&d0.log], d0.height.max(0) as u64, None);
+    drop_driver(d0);
+    let a = replay_with_obs(&ops, &u, false);
+    std::thread::sleep(std::time::Duration::from_millis(1200));
+    let b = replay_with_obs(&ops, &u, true);
+    rep.evaluations += 1;
+    for (i, (x, y)) in a.transcript.iter().zip(b.transcript.iter()).enumerate() {
+        if canon_string(x) != canon_string(y) {
+            violation(rep, "C02", ctx.seed, &format!("time-shifted-response-differs:{}", ops[i].kind()), "the same call answered 1.2 s later by another instance returns different bytes".into(),
+                json!({"network": net, "op": ops[i], "first": x, "later": y}));
+            return;
+        }
+    }
+    for (bi, (oa, ob)) in a.obs.iter().zip(b.obs.iter()).enumerate() {
+        for (k, va) in oa {
+            let vb = ob.get(k).cloned().unwrap_or(Value::Null);
+            if canon_string(va) != canon_string(&vb) {
+                let m = k.split(' ').next().unwrap_or("");
+                violation(rep, "C02", ctx.seed, &format!("time-shifted-obs-differs:{}", m), format!("the query {} is answered differently by an instance fed the same calls 1.2 s later (boundary {})", m, bi),
+                    json!({"network": net, "query": k, "first": va, "later": vb, "ops": ops_json(&ops)}));
+                return;
+            }
+        }
+    }
+    rep.nontrivial(format!("time-shifted-twin:{}", net));
+    rep.count("time_shifted_obs_entries", a.obs.iter().map(|o| o.len() as u64).sum());
+}
+
 // ---------------------------------------------------------------------------------------------
 // Golden corpus
 // ---------------------------------------------------------------------------------------------
@@ -231,6 +289,10 @@ pub fn build_corpus(net: &str) -> (Vec<Op>, Universe) {
     }
     d.exec(Op::Commit);
     grow(&mut w, &mut d, 3, CommitPolicy::Never, &mut rng);
+    // blocks whose supplied timestamp is 0 or the largest value: nothing may be substituted for them
+    for op in zero_time_ops(&w.pks[0], d.next_height(), false) {
+        d.exec(op);
+    }
     // digests: replay on a second directory with Obs at each boundary (the universe is known now)
     let ops: Vec<Op> = d.log.iter().map(|(o, _)| o.clone()).collect();
     let mut u = universe(&[&d.log], d.height.max(0) as u64, Some(&w));
@@ -363,6 +425,9 @@ pub fn worker(ctx: &WorkerCtx) -> WorkerReport {
         return rep;
     }
     let mut rng = ctx.rng();
+    if ctx.shard < 6 || ctx.shard % 16 == 0 {
+        time_shifted_twin(ctx, &mut rep);
+    }
     let (cases, blocks) = if ctx.thorough() { (5, 12) } else { (1, 8) };
     for _ in 0..cases {
         let cs = rng.next();
